@@ -181,7 +181,7 @@ func (x *Exec) labeled(st *State, n *ast.LabeledStmt) []outcome {
 }
 
 func (x *Exec) panicSite(st *State, n ast.Node) []outcome {
-	if x.inGlobalInit > 0 {
+	if x.inGlobalInit > 0 || x.quiet > 0 {
 		st.assume(FalseT)
 		return []outcome{{kind: oPanic, st: st}}
 	}
@@ -1246,10 +1246,10 @@ func (x *Exec) invariantLoop(st *State, ls *loopSpec, inv []Clause) []outcome {
 // dryRunHavoc executes the loop body once with obligations suppressed and havocs every memory cell
 // and variable that the run changed (catches writes performed inside inlined callees).
 func (x *Exec) dryRunHavoc(h *State, ls *loopSpec) {
-	x.inGlobalInit++
+	x.quiet++
 	savedObls := len(x.Obls)
 	defer func() {
-		x.inGlobalInit--
+		x.quiet--
 		x.Obls = x.Obls[:savedObls]
 	}()
 	d := h.fork()
@@ -1268,9 +1268,20 @@ func (x *Exec) dryRunHavoc(h *State, ls *loopSpec) {
 	e := x.env(h)
 	changedMem := map[int]bool{}
 	for _, o := range outs {
+		if o.kind != oNormal && o.kind != oContinue {
+			continue
+		}
 		for a, v := range o.st.mem {
 			if w, ok := start.mem[a]; ok && !sameValue(v, w) {
 				changedMem[a] = true
+			}
+		}
+		// values with internal state that native methods update (hash objects, builders)
+		for k, v := range o.st.vars {
+			if hv, isHash := v.(HashV); isHash {
+				if w, ok := start.vars[k]; ok && !sameValue(hv, w) {
+					unsupported("%s: loop %s leaves the hash object %s in a different state at the end of its body", x.pos(ls.stmt), ls.id, k.Name())
+				}
 			}
 		}
 	}
@@ -1369,10 +1380,10 @@ func (x *Exec) pointerConfigs(h *State, ls *loopSpec, direct map[types.Object]bo
 	}
 	seen := map[string]bool{}
 	var out []map[types.Object]Value
-	x.inGlobalInit++
+	x.quiet++
 	savedObls := len(x.Obls)
 	defer func() {
-		x.inGlobalInit--
+		x.quiet--
 		x.Obls = x.Obls[:savedObls]
 	}()
 	for len(out) < 8 {
